@@ -64,6 +64,26 @@ class ConsumerClient(Client):
     def seed(self):
         return self.seed_value()
 
+    def bad_ps_add(self):
+        """A PostSelection.add() the API refuses: a second rule on a mode that
+        has one (multi_rules off), negative or fractional entries."""
+        r, w = self.rng, self.w
+        cands = [p for p in w.pool["ps"] if w.meta["ps"][p]["pkind"] == "rules"
+                 and not w.pool["ps"][p].multi_rules and w.pool["ps"][p].modes]
+        k = r.random()
+        if cands and k < 0.7:
+            ref = self.pick(cands)
+            used = w.pool["ps"][ref].modes
+            m = r.choice(used)
+            modes = [m] if r.random() < 0.5 else sorted({m, m + 1})
+            return {"op": "ps_add", "ps": ref, "modes": modes,
+                    "n": [r.choice([0, 1, 2])], "reject": True}
+        anyr = [p for p in w.pool["ps"] if w.meta["ps"][p]["pkind"] == "rules"]
+        if not anyr:
+            return None
+        return {"op": "ps_add", "ps": self.pick(anyr),
+                "modes": [r.choice([-1, 0.5])], "n": [1], "reject": True}
+
     def sample_size(self):
         r = self.rng
         if self.cfg.get("big_n"):
@@ -83,6 +103,89 @@ class ConsumerClient(Client):
             else:
                 out.append([k, r.randrange(1, 1000)])
         return out
+
+    def detector_toggle(self, sid):
+        """A perfect detector whose counting mode is switched in place between
+        uses, on outputs that bunch photons."""
+        r, w = self.rng, self.w
+        n = r.randint(2, 3)
+        cid, did = w.new_id("c"), w.new_id("det")
+        st = [0] * n
+        st[0] += 1
+        st[r.randrange(n)] += 1
+        first = r.random() < 0.5
+        big = self.cfg.get("big_n")
+
+        def use():
+            k = r.random()
+            if k < 0.5:
+                return {"op": "sample_n_inputs", "s": sid,
+                        "n": 2000 if big else 50, "seed": self.seed()}
+            if k < 0.75 and big:
+                return {"op": "sample_many", "kind": "sam", "s": sid,
+                        "n": 2000, "stream": r.randrange(1 << 30)}
+            return {"op": "sample", "kind": "sam", "s": sid,
+                    "stream": r.randrange(1 << 30)}
+        self.queue = [
+            {"op": "new_unitary", "n": n, "seed": r.randrange(1 << 30),
+             "kind": "haar", "out": cid},
+            {"op": "new_detector", "out": did, "eff": 1, "p_dark": 0, "pnr": first},
+            {"op": "cons_set", "kind": "sam", "s": sid, "attr": "circuit",
+             "ref": cid, "ref_c": cid},
+            {"op": "cons_set", "kind": "sam", "s": sid, "attr": "input_state",
+             "value": st},
+            {"op": "cons_set", "kind": "sam", "s": sid, "attr": "detector",
+             "ref": did},
+            use(),
+            {"op": "det_set", "det": did, "attr": "photon_counting",
+             "value": not first},
+            use(),
+            {"op": "det_set", "det": did, "attr": "photon_counting",
+             "value": first},
+            use(),
+        ]
+        w.stats["intent:detector_toggle"] += 1
+        return self.queued()
+
+    def postsel_session(self, sid):
+        """A rule set that is edited in place - accepted and refused additions -
+        between the sampling calls that use it."""
+        r, w = self.rng, self.w
+        s = w.pool[self.kind][sid]
+        n = s.circuit.input_modes
+        if n < 2 or len(w.pool["ps"]) >= 8:
+            return None
+        ref = w.new_id("ps")
+        m0 = r.randrange(n)
+        others = [m for m in range(n) if m != m0]
+        big = self.cfg.get("big_n")
+        N = 20000 if big else 50
+
+        def use():
+            if self.kind == "sam":
+                return {"op": r.choice(["sample_n_inputs", "sample_n_inputs",
+                                        "sample_n_outputs"]),
+                        "s": sid, "n": N, "seed": self.seed(), "ps": ref}
+            return {"op": "quick_n_outputs", "s": sid, "n": N, "seed": self.seed()}
+        q = [{"op": "new_postsel", "kind": "rules",
+              "rules": [[[m0], sorted(set(r.sample([0, 1, 2], 2)))]], "out": ref}]
+        if self.kind == "qs":
+            q.append({"op": "cons_set", "kind": "qs", "s": sid,
+                      "attr": "post_select", "ref": ref})
+        q.append(use())
+        # a refused addition: the mode already has a rule
+        q.append({"op": "ps_add", "ps": ref,
+                  "modes": [m0] if r.random() < 0.5 else sorted([m0, r.choice(others)]),
+                  "n": [r.choice([0, 1, 2])], "reject": True})
+        q.append(use())
+        # an accepted addition on another mode
+        q.append({"op": "ps_add", "ps": ref, "modes": [r.choice(others)],
+                  "n": sorted(set(r.sample([0, 1, 2], 2)))})
+        q.append(use())
+        self.queue = q
+        w.stats["intent:postsel_session"] += 1
+        w.stats["fault:reject_issued"] += 1
+        return self.queued()
 
     def herald_session(self, sid):
         """A photon-carrying herald whose output mode can receive more than one
@@ -276,13 +379,36 @@ class SamplerUser(ConsumerClient):
             return self.variant_intent(sid)
         if r.random() < 0.03 and len(w.pool["p"]) < 8:
             return self.mzi_intent(sid)
+        if self.kind == "qs" and r.random() < 0.03:
+            return self.postsel_session(sid)
         if cfg.get("big_n") and r.random() < 0.05:
             return self.herald_session(sid)
+        if r.random() < 0.03:
+            return self.detector_toggle(sid)
+        if r.random() < 0.03:
+            return self.postsel_session(sid)
         k = r.choice(["read", "read", "sample", "sample_n", "sample_n",
                       "sample_o", "circuit", "circuit", "state", "source",
                       "src_edit", "src_edit", "detector", "det_edit", "backend",
                       "edit_circuit", "edit_circuit", "new_src", "new_det",
-                      "new_ps", "pred_fault", "reject"])
+                      "new_ps", "pred_fault", "reject", "ps_add"])
+        if k == "ps_add":
+            rules = [p for p in w.pool["ps"] if w.meta["ps"][p]["pkind"] == "rules"]
+            if not rules:
+                return self.new_postsel(s.circuit.input_modes) if len(w.pool["ps"]) < 4 else None
+            if cfg.get("faults") and r.random() < 0.35:
+                o = self.bad_ps_add()
+                if o is not None:
+                    w.stats["fault:reject_issued"] += 1
+                    return o
+            ref = self.pick(rules)
+            ps = w.pool["ps"][ref]
+            n = s.circuit.input_modes
+            free = [m for m in range(n) if m not in ps.modes]
+            if not free:
+                return None
+            return {"op": "ps_add", "ps": ref, "modes": [r.choice(free)],
+                    "n": sorted(set(r.sample([0, 1, 2], r.randint(1, 2))))}
         cid = meta.get("circuit")
         c = w.pool["c"].get(cid)
         if k == "read":
@@ -386,7 +512,13 @@ class SamplerUser(ConsumerClient):
             return None
         w.stats["fault:reject_issued"] += 1
         kk = r.choice(["circuit", "state_len", "state_neg", "state_type",
-                       "source", "detector", "backend", "clifford"])
+                       "source", "detector", "backend", "clifford", "ps_add",
+                       "ps_add"])
+        if kk == "ps_add":
+            o = self.bad_ps_add()
+            if o is not None:
+                return o
+            kk = "backend"
         o = {"op": "cons_set", "kind": "sam", "s": sid, "reject": True}
         if kk == "circuit":
             o.update(attr="circuit", value=3)
@@ -553,7 +685,12 @@ class QuickUser(ConsumerClient):
         if not cfg.get("faults"):
             return None
         w.stats["fault:reject_issued"] += 1
-        kk = r.choice(["circuit", "state_len", "pnr", "ps"])
+        kk = r.choice(["circuit", "state_len", "pnr", "ps", "ps_add", "ps_add"])
+        if kk == "ps_add":
+            o = self.bad_ps_add()
+            if o is not None:
+                return o
+            kk = "ps"
         o = {"op": "cons_set", "kind": "qs", "s": sid, "reject": True}
         if kk == "circuit":
             o.update(attr="circuit", value="x")
